@@ -280,5 +280,7 @@ LtsStart == { <<49>>, <<49, 46, 48>>, <<49, 58, 50>>, <<49, 45, 49>>, <<49, 58, 
               <<>>, <<49, 10>>, <<58, 49>>, <<49, 32>>, <<1635, 58, 49>>, <<49, 45>>, <<97, 58, 49>> }
 \* None  ""  "1"  "x"  "1:2"  "a-b"  "e-acute"  "1\n"
 LtsValues == { Absent, <<>>, <<49>>, <<120>>, <<49, 58, 50>>, <<97, 45, 98>>, <<233>>, <<49, 10>> }
+\* quick two-object configuration: 1  1:2  1-1  1:2-3  a  and two texts that are not versions
+PairStart == { <<49>>, <<49, 58, 50>>, <<49, 45, 49>>, <<49, 58, 50, 45, 51>>, <<97>>, <<49, 10>>, <<58, 49>> }
 NoStrings == {}
 =============================================================================
